@@ -50,6 +50,11 @@ def run(ck):
     ck.run_rule(r13_full_width)
     from .c05 import v3_mate_score as v3_mate_scores
     ck.run_rule(v3_mate_scores)
+    # a reported mate is true only if the evaluator says "mate" for mated positions alone: its terminal test (C05's V1, V2, V4)
+    from .c05 import v1_bypass, v2_terminal_values, v4_no_mate_score_outside_the_terminal_test
+    ck.run_rule(v1_bypass)
+    ck.run_rule(v2_terminal_values)
+    ck.run_rule(v4_no_mate_score_outside_the_terminal_test)
     # the move-less test of R6 compares the node counter before and after the move loop: it is only sound if every visited
     # node counts itself before anything can return (C04's X3 placement rule); and the reported first move is the root entry's
     # move, replayed exactly as stored (C03's line-walk rules)
